@@ -88,3 +88,21 @@ Example C05_example_call_cut :
   let tr := w_trace (snd (steps w0 [AConnect [104] 21 None; ADownload [102] None None])) in
   sink_bytes (ios tr) = [97;10;98] /\ net_in_bytes (ios tr) = [97;13;10;98;13] /\ count_ev is_flush (ios tr) = O.
 Proof. exact ascii_cut_example. Qed.
+
+(* ---- every upload call, every state in ASCII type, every server (Upload_Ascii_Global.v) ---- *)
+From LibFtp Require Upload_Ascii_Global.
+
+(* what the call writes to the data connection is a prefix of the LF->CRLF conversion of what the source yields; nothing else
+   is written there, whether the upload completes, is cancelled or fails *)
+Theorem C05_upload_call_writes_a_prefix_of_the_conversion : forall u path chunks cb w,
+  c_type (w_cfg w) = TAscii ->
+  exists tr rest, w_trace (snd (step w (AUpload u path chunks cb))) = w_trace w ++ tr /\
+    net_out_bytes (ios tr) ++ rest = to_crlf (concat chunks).
+Proof. exact Upload_Ascii_Global.upload_writes_a_prefix_of_the_conversion. Qed.
+Print Assumptions C05_upload_call_writes_a_prefix_of_the_conversion.
+
+Example C05_example_upload_call :
+  let w0 := init_world (mkConfig Passive true TAscii false false) Upload_Ascii_Global.upload_ascii_script in
+  let tr := w_trace (snd (steps w0 [AConnect [104] 21 None; AUpload UStor [102] [[97;10]; [13]; [10;98;10]] None])) in
+  net_out_bytes (ios tr) = [97;13;10;13;10;98;13;10].
+Proof. exact Upload_Ascii_Global.upload_ascii_example. Qed.
